@@ -97,6 +97,7 @@ def strategy_outcomes(prog, run, ex, kind, _depth=0):
 
 
 def check(prog, run):
+    check_completion_never_raises_field_error(prog, run, "S9")
     # ---- S1 strategy selection
     r = run.rule("S1", "execute() binds the serial strategy exactly for mutations, the parallel one for queries, refuses every "
                        "other operation kind, and calls the bound strategy", 4)
@@ -395,3 +396,60 @@ def check_guarded_flatten(prog, run, rule_id):
                    "the else_-guarded map_value receives `%s`, not runtime.unwrap_value(resolver(...)): only the first level of a nested "
                    "awaitable/future is awaited under the guard, so a ResolverError from an inner level is raised out of the request"
                    % (" ".join(ast.unparse(arg).split())[:70] if arg is not None else None))
+
+
+def check_completion_never_raises_field_error(prog, run, rule_id):
+    """A field error never leaves the completion of a value as an exception."""
+    from .. import usercalls
+    from ..excflow import ExcUniverse
+    r = run.rule(rule_id, "the completion path of the generic executor (complete_value and what it calls inside the executor, up to the next "
+                          "resolve_field, which handles its own failures) never lets the library's ResolverError out as an exception: "
+                          "completion *records* field errors (add_error) and keeps going, and aborts the operation with other classes. "
+                          "A ResolverError raised while a list is being completed abandons the entries already started - under a "
+                          "deferred runtime they keep running while the field's failure handler lets the serial chain start the next "
+                          "top-level field. Sites: explicit raises of that class, and calls of user-supplied callables "
+                          "(vf/usercalls.py), which may raise it", 3)
+    u = ExcUniverse(prog)
+    start = prog.get_func(EXE, "Executor.complete_value")
+    stop = {"resolve_field"}
+    seen, stack = {}, [start]
+    while stack:
+        f = stack.pop()
+        if f.key in seen:
+            continue
+        seen[f.key] = f
+        for c in shapes.calls_in(f.node, own=False):
+            for callee in prog.resolve_call(f, c):
+                if callee.name not in stop and callee.key not in seen and callee.name != "__init__":
+                    stack.append(callee)
+    sl = usercalls.slots(prog)
+    for f in sorted(seen.values(), key=lambda x: x.qualname):
+        run.looked_at(f)
+        r.instance("completion path: %s" % f.qualname, nontrivial=False)
+
+        def caught(n, f=f):
+            cur, child = getattr(n, "_parent", None), n
+            while cur is not None and cur is not f.node:
+                if isinstance(cur, ast.Try) and any(child is st for st in cur.body):
+                    for h in cur.handlers:
+                        names = [ast.unparse(t).split(".")[-1] for t in (h.type.elts if isinstance(h.type, ast.Tuple) else [h.type])] if h.type is not None else ["BaseException"]
+                        if any(u.is_subclass("ResolverError", x) for x in names):
+                            return True
+                child, cur = cur, getattr(cur, "_parent", None)
+            return False
+        for n in own_nodes(f.node):
+            if isinstance(n, ast.Raise) and n.exc is not None:
+                e = n.exc.func if isinstance(n.exc, ast.Call) else n.exc
+                nm = e.attr if isinstance(e, ast.Attribute) else (e.id if isinstance(e, ast.Name) else None)
+                if nm and u.is_exc(nm) and u.is_subclass(nm, "ResolverError") and not caught(n):
+                    r.instance("%s: `%s`" % (f.qualname, norm_stmt(n, 60)))
+                    run.report(r, "%s:%s:raises-field-error(%s)" % (f.module.name, f.qualname, nm), f.where(n),
+                               "%s raises %s during completion: raised while a list is completed it abandons the entries already "
+                               "started; the field fails at once and the next top-level mutation field starts while they still run"
+                               % (f.qualname, nm))
+            if usercalls.is_user_call(prog, f, n, sl) and not caught(n):
+                r.instance("%s: user callable `%s`" % (f.qualname, norm_stmt(n, 60)))
+                run.report(r, "%s:%s:user-callable(%s)" % (f.module.name, f.qualname, n.func.attr), f.where(n),
+                           "%s calls the user-supplied `%s` during completion, unguarded: a ResolverError it raises while a list is "
+                           "completed abandons the entries already started (they keep running under the thread pool) and the serial "
+                           "chain moves on to the next top-level field" % (f.qualname, ast.unparse(n.func)))
